@@ -359,9 +359,6 @@ pub fn gen(tier: Tier, seed: u64) -> Vec<String> {
             let x = print(&e, false);
             let y = print(&ed_, true);
             if x != y {
-                if y != print(&ed_, false) && !defects.contains(&"array-const") {
-                    defects.push("array-const");
-                }
                 if ed_ != e && !defects.contains(&"grid-overflow") {
                     defects.push("grid-overflow");
                 }
